@@ -62,6 +62,8 @@ AWARE = [["dt", 2020, 3, 10, 10, 0, 0, ["utc"]], ["dt", 2020, 3, 10, 12, 30, 0, 
 # harness, found by the benign-mutant self-test, when such a value was in the pool)
 DURS = [["td", 1, 0], ["td", 2, 0], ["td", 7, 0], ["td", 0, 5400], ["td", 0, 0], ["td", -1, 0],
         ["td", -1, 82800], ["td", 1, 3600], ["td", 0, 45]]
+# what arithmetic in client code produces and no text can carry: parts below a second
+DURS_API = DURS + [["td", 2, 0, 500000], ["td", 0, 3600, 250000], ["td", 1, 0, 1]]
 BAD = [["s", "20200310"], ["i", 5], ["f", 1.5], ["list", []]]
 
 CLASSES = ["Event", "Event", "Todo", "Todo", "Journal"]
@@ -131,6 +133,8 @@ class Model:
         def conv(spec):
             if spec[-1] == "sub":      # parsing hands back plain dates and datetimes
                 spec = spec[:-1]
+            if spec[0] == "td" and len(spec) > 3:      # the text of a DURATION ends at the seconds
+                spec = spec[:3]
             if spec[0] == "dt" and spec[7] and spec[7][0] == "pytz":
                 return spec[:7] + [["zi", spec[7][1]]]
             return spec
@@ -155,7 +159,7 @@ class Model:
                 return "multi"
             s = v[1]
             if dur:
-                return "whole-day" if s[2] == 0 else "sub-day"
+                return "whole-day" if s[2] == 0 and not (len(s) > 3 and s[3]) else "sub-day"
             if s[0] == "date":
                 return "date"
             return "floating" if s[7] is None else "aware"
@@ -173,7 +177,7 @@ class Model:
             out.append("both")
         if S is not None and E is not None and (S[0] == "date") != (E[0] == "date"):
             out.append("mismatch")
-        if S is not None and S[0] == "date" and D is not None and D[2] != 0:
+        if S is not None and S[0] == "date" and D is not None and (D[2] != 0 or (len(D) > 3 and D[3] != 0)):
             out.append("subday")
         return out
 
@@ -288,7 +292,7 @@ def generate(rng, cfg):
             if rng.random() < 0.12:
                 v = ["n"]
             elif attr == "DURATION":
-                v = rng.choice(DURS)
+                v = rng.choice(DURS_API)
             else:
                 v = _val(rng, aware)
             step = [0, "set", {"attr": attr, "v": v}]
@@ -310,12 +314,12 @@ def generate(rng, cfg):
             m.roundtrip()
         elif op == "add":
             name = rng.choice(names)
-            v = rng.choice(DURS) if name == "DURATION" else _val(rng, aware)
+            v = rng.choice(DURS_API) if name == "DURATION" else _val(rng, aware)
             step = [0, "add", {"name": name, "v": v}]
             m.add(name, v)
         else:
             name = rng.choice(names)
-            v = rng.choice(DURS) if name == "DURATION" else _val(rng, aware)
+            v = rng.choice(DURS_API) if name == "DURATION" else _val(rng, aware)
             step = [0, "setitem", {"name": name, "v": v}]
             m.setitem(name, v)
         trace.append(step)
@@ -328,7 +332,7 @@ def _vclass(v):
     if v[0] == "dt":
         return "dt:" + ("floating" if v[7] is None else v[7][0]) + ("+sub" if v[-1] == "sub" else "")
     if v[0] == "td":
-        return "td:" + ("day" if v[2] == 0 else "sub")
+        return "td:" + ("day" if v[2] == 0 else "sub") + ("+us" if len(v) > 3 and v[3] else "")
     return v[0]
 
 
